@@ -339,8 +339,14 @@ func c19Exec(cp *c19Corpus, sigs []*sigbits.SigBits, call c19Call, g *c19Guards)
 		return gen.Hash64(h, bmtree.IndexToPath(call.a, call.b))
 	case fAllPaths:
 		m := cp.masks[call.a]
-		ap := bmtree.AllPaths(int32(m), uint64(call.b)<<31, uint64(call.c)<<31)
-		if g != nil && overlapW(ap, bmtree.AllPaths(int32(m), uint64(call.b)<<31, uint64(call.c)<<31)) {
+		// a quarter of the ranges start at the very first path; the low half of `to` is 0, the top bit, all ones or a
+		// small value (end points on, between and beyond path words)
+		from, to := uint64(call.b)<<31, uint64(call.c>>2)<<32|[4]uint64{0, 0x80000000, 0xffffffff, 0x10}[call.c&3]
+		if call.b&3 == 0 {
+			from = 0
+		}
+		ap := bmtree.AllPaths(int32(m), from, to)
+		if g != nil && overlapW(ap, bmtree.AllPaths(int32(m), from, to)) {
 			g.alias = true
 		}
 		return gen.Hash64(h, gen.HashWords(ap))
